@@ -71,7 +71,8 @@ pub fn proxy_spec() -> BoxedStrategy<ProxySpec> {
         any::<bool>(),
         urlgen::host(),
         urlgen::port(),
-        prop_oneof![2 => Just(None), 1 => ("[a-z0-9]{1,6}", prop_oneof![Just(None), "[a-zA-Z0-9]{0,6}".prop_map(Some)]).prop_map(Some)],
+        // (credentials over the unreserved characters; `~` in the third position of a group is where the standard and the URL-safe base64 alphabets part)
+        prop_oneof![4 => Just(None), 2 => ("[a-z0-9._~-]{1,6}", prop_oneof![Just(None), "[a-zA-Z0-9._~-]{0,6}".prop_map(Some)]).prop_map(Some), 1 => Just(Some(("ab~".to_string(), Some("~~~".to_string()))))],
     )
         .prop_map(|(https, host, port, creds)| {
             let port = match port {
